@@ -195,6 +195,21 @@ static void __attribute__((noinline)) do_call(struct call *c) {
 	else if (!strcmp(op, "mod_inv")) rc = bn_mod_inv(&A, &M, NULL);
 	else if (!strcmp(op, "mod_sqrt")) rc = bn_mod_sqrt(&A, &M, NULL);
 	else if (!strcmp(op, "mod_reduce")) rc = bn_mod_reduce(&A, &M, NULL);
+	else if (!strcmp(op, "mod_mult_digit")) rc = bn_mod_mult_digit(&A, digit_of(vb), &M, NULL);
+	else if (!strcmp(op, "mod_exp_digit")) { /* exponent = value of B, a machine word */
+		size_t e = 0;
+		for (size_t j = 0; j < sizeof(size_t); j++) e |= ((size_t)vb[j]) << (8 * j);
+		rc = bn_mod_exp_digit(&A, e, &M, NULL);
+	}
+	else if (!strcmp(op, "exp_digit")) rc = bn_exp_digit(&A, digit_of(vb));
+	else if (!strcmp(op, "assign_digit")) rc = bn_assign_digit(&A, digit_of(vb));
+	else if (!strcmp(op, "assign_2exp")) rc = bn_assign_2exp(&A, (size_t)k);
+	else if (!strcmp(op, "digit_ctz")) n = (long)bn_digit_ctz(digit_of(va));
+	else if (!strcmp(op, "digit_clz")) n = (long)bn_digit_clz(digit_of(va));
+	else if (!strcmp(op, "digit_gcd") || !strcmp(op, "digit_gcd_bin")) { /* A = gcd(a, b) of two digits */
+		bn_digit_t g = (op[9] == 0) ? bn_digit_gcd(digit_of(va), digit_of(vb)) : bn_digit_gcd_bin(digit_of(va), digit_of(vb));
+		A.num[0] = g; A.digits = (g != 0) ? 1 : 0;
+	}
 	else if (!strcmp(op, "naf")) {
 		size_t cnt = 0;
 		if ((size_t)k2 > sizeof(sd)) die("naf array too large");
@@ -273,6 +288,7 @@ int main(void) {
 		bn_load(&B, cb, vb, bbits, poison);
 		bn_load(&M, cm, vm, mbits, poison);
 		bn_load(&R, cr, va, 0, poison);
+		if (!strcmp(op, "mod_exp_digit") && bbits > 8 * sizeof(size_t)) die("exponent wider than size_t");
 		if (!strcmp(al, "ab") || !strcmp(al, "abn") || !strcmp(al, "abr") || !strcmp(al, "all")) pB = &A;
 		(void)bbits; (void)mbits;
 		memset(&cl, 0, sizeof(cl));
